@@ -163,12 +163,18 @@ type genOpts struct {
 	MaxDeletes, MaxGC, MaxIters                                int
 	NoReopen                                                   bool
 	NoSleep                                                    bool
+	// Rename adds channel renames (meta.json rewrites) to the script
+	Rename bool
 	// AutoSweeps adds auto-span (chunk-sized) iterator traversals to the read mix
 	// (C10's territory; off for C01 whose statement is about time-range reads).
 	AutoSweeps bool
 }
 
 type planSeg struct {
+	slot int
+	// idxTouched: a delete naming this group's index channel was planned after the
+	// segment was written, so ts may no longer be what the index holds
+	idxTouched bool
 	start  int64
 	ts     []int64          // committed index timestamps, ascending
 	has    map[uint32]bool  // data channels that already have (or had) data anywhere in this segment
@@ -180,6 +186,9 @@ type planGroup struct {
 	used  map[int]bool
 	segs  []*planSeg
 	openW int
+	// wiped remembers segments that were deleted as a whole: a later writer may write
+	// the very same timestamps again (re-ingesting a time range with new values)
+	wiped []*planSeg
 }
 
 type planWriter struct {
@@ -196,6 +205,7 @@ type planWriter struct {
 	seg      *planSeg // data-only: anchor
 	pos, end int      // data-only: next index in seg.ts, exclusive end
 	writes   int
+	replay   []int64 // timestamps to write again (re-ingest of a wiped segment)
 }
 
 const vSlot = 1000
@@ -210,6 +220,8 @@ type planner struct {
 	ops     []vOp
 	allTS   []int64
 	bounds  []int64
+	pastDeletes []vOp
+	renames     int
 }
 
 func genSchema(t *rapid.T, o genOpts) vSchema {
@@ -323,15 +335,27 @@ func (p *planner) openWriter() bool {
 	} else {
 		// fresh slot, possibly earlier than existing data (out-of-order domain insert)
 		slot := rapid.IntRange(1, 12).Draw(p.t, "slot")
+		var again *planSeg
+		for i, ws := range g.wiped {
+			if !g.used[ws.slot] && rapid.IntRange(0, 1).Draw(p.t, "reingest") == 0 {
+				again, slot = ws, ws.slot
+				g.wiped = append(g.wiped[:i], g.wiped[i+1:]...)
+				break
+			}
+		}
 		for g.used[slot] {
 			slot++
 		}
 		g.used[slot] = true
 		w.slot = slot
 		w.start = int64(slot)*vSlot + int64(rapid.IntRange(0, 5).Draw(p.t, "soff"))
+		if again != nil {
+			w.start = again.start
+			w.replay = append([]int64(nil), again.ts...)
+		}
 		// abut the previous slot's data exactly (end == next start) when possible
 		for _, s := range g.segs {
-			if len(s.ts) > 0 && s.ts[len(s.ts)-1]/vSlot == int64(slot-1) && rapid.IntRange(0, 2).Draw(p.t, "abut") == 0 {
+			if again == nil && len(s.ts) > 0 && s.ts[len(s.ts)-1]/vSlot == int64(slot-1) && rapid.IntRange(0, 2).Draw(p.t, "abut") == 0 {
 				w.start = s.ts[len(s.ts)-1] + 1
 			}
 		}
@@ -381,6 +405,15 @@ func (p *planner) write(w *planWriter) bool {
 		}
 		ts = append(ts, w.seg.ts[w.pos:w.pos+n]...)
 		w.pos += n
+	} else if len(w.replay) > 0 {
+		if n > len(w.replay) {
+			n = len(w.replay)
+		}
+		ts = append(ts, w.replay[:n]...)
+		w.replay = w.replay[n:]
+		if len(ts) > 0 {
+			w.next = ts[len(ts)-1] + 1
+		}
 	} else {
 		limit := int64(w.slot+1)*vSlot - 20
 		for i := 0; i < n; i++ {
@@ -406,7 +439,7 @@ func (p *planner) closeWriter(w *planWriter) {
 	w.g.openW = -1
 	delete(p.writers, w.id)
 	if !w.dataOnly {
-		seg := &planSeg{start: w.start, ts: w.commit, has: map[uint32]bool{}}
+		seg := &planSeg{slot: w.slot, start: w.start, ts: w.commit, has: map[uint32]bool{}}
 		for _, c := range w.chans[1:] {
 			seg.has[c] = true
 		}
@@ -447,6 +480,39 @@ func (p *planner) rng(label string) (int64, int64) {
 // index group; afterwards the group's segments are no longer used as anchors for
 // data-only writers (their timestamps may be gone).
 func (p *planner) del() {
+	if len(p.pastDeletes) > 0 && rapid.IntRange(0, 3).Draw(p.t, "repeatdel") == 0 {
+		// the same request again (after more writes it cuts a different layout at the
+		// same bounds)
+		op := p.pastDeletes[rapid.IntRange(0, len(p.pastDeletes)-1).Draw(p.t, "whichdel")]
+		for _, g := range p.groups {
+			named := false
+			for _, k := range op.Keys {
+				if k == g.idx {
+					named = true
+				}
+				for _, d := range g.data {
+					if d == k {
+						named = true
+					}
+				}
+			}
+			if named {
+				for _, sg := range g.segs {
+					for _, d := range g.data {
+						sg.has[d] = true
+					}
+					sg.idxTouched = true
+				}
+			}
+		}
+		p.ops = append(p.ops, op)
+		return
+	}
+	defer func() {
+		if n := len(p.ops); n > 0 && p.ops[n-1].K == "delete" {
+			p.pastDeletes = append(p.pastDeletes, p.ops[n-1])
+		}
+	}()
 	a, b := p.rng("del")
 	for tries := 0; a >= b && tries < 4; tries++ {
 		a, b = p.rng("del")
@@ -456,7 +522,47 @@ func (p *planner) del() {
 	}
 	var keys []uint32
 	var touched []*planGroup
-	switch rapid.IntRange(0, 3).Draw(p.t, "dkind") {
+	kind := rapid.IntRange(0, 5).Draw(p.t, "dkind")
+	if kind >= 4 {
+		// wipe exactly one committed segment (so that it can be written again): either
+		// the whole group, which frees the writer slot, or one data channel, which a
+		// data-only writer anchored on the surviving index samples may refill
+		var cands []*planSeg
+		var owner []*planGroup
+		for _, g := range p.groups {
+			for _, sg := range g.segs {
+				if len(sg.ts) > 0 && (kind == 4 || !sg.idxTouched) {
+					cands = append(cands, sg)
+					owner = append(owner, g)
+				}
+			}
+		}
+		if len(cands) > 0 {
+			i := rapid.IntRange(0, len(cands)-1).Draw(p.t, "wseg")
+			sg, g := cands[i], owner[i]
+			a, b := sg.start, sg.ts[len(sg.ts)-1]+1
+			if kind == 4 || len(g.data) == 0 {
+				p.ops = append(p.ops, vOp{K: "delete", A: a, B: b, Keys: append([]uint32{g.idx}, g.data...)})
+				for j, x := range g.segs {
+					if x == sg {
+						g.segs = append(g.segs[:j], g.segs[j+1:]...)
+						break
+					}
+				}
+				if sg.start/vSlot == int64(sg.slot) {
+					g.used[sg.slot] = false
+					g.wiped = append(g.wiped, sg)
+				}
+			} else {
+				d := g.data[rapid.IntRange(0, len(g.data)-1).Draw(p.t, "wd")]
+				p.ops = append(p.ops, vOp{K: "delete", A: a, B: b, Keys: []uint32{d}})
+				sg.has[d] = false
+			}
+			return
+		}
+		kind = 3
+	}
+	switch kind {
 	case 0: // one index channel alone
 		g := p.groups[rapid.IntRange(0, len(p.groups)-1).Draw(p.t, "dg")]
 		keys = []uint32{g.idx}
@@ -479,9 +585,18 @@ func (p *planner) del() {
 		touched = p.groups
 	}
 	for _, g := range touched {
+		idxNamed := false
+		for _, k := range keys {
+			if k == g.idx {
+				idxNamed = true
+			}
+		}
 		for _, s := range g.segs {
 			for _, d := range g.data {
 				s.has[d] = true
+			}
+			if idxNamed {
+				s.idxTouched = true
 			}
 		}
 	}
@@ -541,6 +656,10 @@ func genScript(t *rapid.T, o genOpts) vScript {
 			p.commitPlan(w)
 		case k < 15 && len(open) > 0:
 			p.closeWriter(open[rapid.IntRange(0, len(open)-1).Draw(t, "xw")])
+		case k == 15 && o.Rename && rapid.Bool().Draw(t, "ren") && len(open) == 0:
+			keys := p.allKeys()
+			p.renames++
+			p.ops = append(p.ops, vOp{K: "rename", Keys: []uint32{keys[rapid.IntRange(0, len(keys)-1).Draw(t, "rnk")]}, W: p.renames})
 		case k == 15 && !o.NoSleep:
 			p.ops = append(p.ops, vOp{K: "sleep", D: int64(rapid.IntRange(1, 3000).Draw(t, "sleep")) * int64(time.Millisecond)})
 		case k == 16 && !o.NoReopen && len(open) == 0:
@@ -650,6 +769,7 @@ type vRun struct {
 	deletes, gcs, iters      int
 	lastFailKey              uint32
 	autoSteps, reversedWalks int
+	names                    map[uint32]string
 	// taint is set once the run has performed an operation that is a recorded known
 	// finding's precondition and corrupts state; it prefixes every later signature.
 	taint string
@@ -661,7 +781,7 @@ type vRun struct {
 func newRun(st *drv.Stats, sch vSchema) *vRun {
 	r := &vRun{st: st, ctx: context.Background(), core: simfs.New(), sch: sch, chans: map[uint32]vChan{},
 		model: tsmodel.New(), writers: map[int]*vWriter{}, seq: map[uint32]int{}, written: map[uint32]map[int64][][]byte{},
-		inexact: map[uint32]map[int64]bool{}}
+		inexact: map[uint32]map[int64]bool{}, names: map[uint32]string{}}
 	for _, c := range sch.Chans {
 		r.chans[c.Key] = c
 	}
@@ -692,6 +812,7 @@ func (r *vRun) createChannels() error {
 			return err
 		}
 		r.model.Add(c.Key, c.Index, c.IsIndex)
+		r.names[c.Key] = ch.Name
 	}
 	return nil
 }
@@ -1008,6 +1129,14 @@ func (r *vRun) step(i int, op vOp) (changed bool, fail *drv.Failure) {
 	case "sleep":
 		time.Sleep(time.Duration(op.D))
 		r.st.AddVirtual(time.Duration(op.D))
+	case "rename":
+		name := "c" + strconv.Itoa(int(op.Keys[0])) + "_r" + strconv.Itoa(op.W)
+		if err := r.db.RenameChannel(r.ctx, ChannelKey(op.Keys[0]), name); err != nil {
+			return false, drv.Failf("unexpected-error", "rename:"+errSig(err), "op %d rename ch %d: %v", i, op.Keys[0], err)
+		}
+		r.names[op.Keys[0]] = name
+		r.st.Probe("rename")
+		changed = true
 	case "reopen":
 		if f := r.reopen(); f != nil {
 			return false, f
